@@ -646,3 +646,68 @@ func ruleSortedNames(p *core.Program) []core.Obligation {
 	}
 	return obs
 }
+
+func init() {
+	register(&Rule{ID: "R-AGGNAME", Min: 1, Run: ruleAggName,
+		Doc: "where an aggregation's group key is computed with Labels.HashWithoutLabels (which always ignores the metric name) the output label set built next to it deletes the metric name as well: group key and group labels agree, and the result of an aggregation never carries __name__"})
+	mutant(Mutant{Rule: "R-AGGNAME", Name: "without-keeps-name", File: "execution/aggregate/scalar_table.go",
+		Old: "\t\tlb.Del(labels.MetricName)\n", New: "", Expect: "hashMetric"})
+}
+
+// delsMetricName reports whether call is Builder.Del with the constant "__name__" among its names.
+func delsMetricName(call *ssa.Call) bool {
+	if core.CalleeName(&call.Call) != "(*"+pkgLabels+".Builder).Del" || len(call.Call.Args) < 2 {
+		return false
+	}
+	sl, ok := call.Call.Args[1].(*ssa.Slice)
+	if !ok {
+		return false
+	}
+	al, ok := sl.X.(*ssa.Alloc)
+	if !ok {
+		return false
+	}
+	for _, r := range core.Referrers(al) {
+		if ia, ok := r.(*ssa.IndexAddr); ok {
+			for _, rr := range core.Referrers(ia) {
+				if st, ok := rr.(*ssa.Store); ok && isMetricNameConst(st.Val) {
+					return true
+				}
+			}
+		}
+	}
+	return false
+}
+
+func ruleAggName(p *core.Program) []core.Obligation {
+	const rule = "R-AGGNAME"
+	var obs []core.Obligation
+	for _, fn := range p.Funcs {
+		if core.Rel(fn.Pkg.Pkg.Path()) != "execution/aggregate" {
+			continue
+		}
+		core.EachInstr(fn, func(b *ssa.BasicBlock, i int, ins ssa.Instruction) {
+			call, ok := ins.(*ssa.Call)
+			if !ok || core.CalleeName(&call.Call) != "("+pkgLabels+".Labels).HashWithoutLabels" {
+				return
+			}
+			key := core.FuncName(fn) + " without-branch drops the metric name"
+			// a Builder.Del("__name__") on the same path: in a block that dominates, or is dominated by, the hash call's block
+			found := false
+			core.EachInstr(fn, func(b2 *ssa.BasicBlock, j int, x ssa.Instruction) {
+				if c, ok := x.(*ssa.Call); ok && delsMetricName(c) && (core.BlockDominates(b2, b) || core.BlockDominates(b, b2)) {
+					// and not shared with the by-branch: the Del must be control dependent on the same condition as the hash call, i.e. same block
+					if b2 == b {
+						found = true
+					}
+				}
+			})
+			if found {
+				obs = append(obs, core.Ob(rule, key, p.Pos(call.Pos()), core.FuncName(fn), core.Held, "Builder.Del(__name__) next to HashWithoutLabels"))
+			} else {
+				obs = append(obs, core.Ob(rule, key, p.Pos(call.Pos()), core.FuncName(fn), core.Violated, "the group key ignores the metric name but the group's label set keeps it: 'sum without (l) (x)' returns series carrying __name__, and metrics that differ only in name share a key but not their labels"))
+			}
+		})
+	}
+	return obs
+}
